@@ -266,6 +266,11 @@ func (e *expansionAlt) eval(cfg *Config, opts *options) (string, error) {
 	opts.activeFields = newFieldSet(parentFields)
 	tmp, err := ref.resolve(cfg, opts)
 	opts.activeFields = parentFields
+	if err != nil && isCyclicError(err) && parentFields.Has(ref.Path.String()) {
+		// the setting is being evaluated right now, so it is set: the answer
+		// does not depend on where the evaluation was started
+		return e.right.eval(cfg, opts)
+	}
 	if err != nil || tmp == nil {
 		return "", nil
 	}
